@@ -211,6 +211,8 @@ var c02SwallowAllow = []swallowAllow{
 }
 
 var c02LintAllow = []lintAllow{
+	{"x/tss/keeper.Keeper.GetRandomMembers", "unstable sort sort.Slice", "sorts the selected members by member id; ids are unique within a group, so there are no equal elements to reorder"},
+	{"pkg/tss.CommitmentIDEList.Sort", "unstable sort sort.Slice", "sorts by member id and then REJECTS repeated ids, so a list with equal elements never leaves the function"},
 	{"x/bandtss/types.validateTimeDuration$1", "floating-point comparison", "sign test `Duration.Seconds() <= 0` in parameter validation: the outcome depends only on the sign of the int64 duration, not on rounding"},
 }
 
